@@ -224,12 +224,43 @@ func runAgentTable(args []string) {
 			}
 			node.take()
 			sp.take()
+			// every combination twice: once with the pool's verdicts changing from round to round (local peers outermost),
+			// once with the local peer set changing under an unchanged pool reply (local peers innermost)
+			type combo struct{ l0, l1, a0, a1, i0, i1 string }
+			var order []combo
 			for _, l0 := range locals {
 				for _, l1 := range locals {
 					for _, a0 := range actives {
 						for _, a1 := range actives {
 							for _, i0 := range invalids {
 								for _, i1 := range invalids {
+									order = append(order, combo{l0, l1, a0, a1, i0, i1})
+								}
+							}
+						}
+					}
+				}
+			}
+			for _, a0 := range actives {
+				for _, a1 := range actives {
+					for _, i0 := range invalids {
+						for _, i1 := range invalids {
+							for _, l0 := range locals {
+								for _, l1 := range locals {
+									order = append(order, combo{l0, l1, a0, a1, i0, i1})
+								}
+							}
+						}
+					}
+				}
+			}
+			for _, cb := range order {
+				{
+					{
+						{
+							{
+								{
+									l0, l1, a0, a1, i0, i1 := cb.l0, cb.l1, cb.a0, cb.a1, cb.i0, cb.i1
 									n++
 									// the dimensions that do not interact with the peers are cycled through
 									target := []int{0, 1, 3, 5, 2, 26, 40, 1000}[n%8] // small targets and ones far above anything a pool returns
